@@ -1,6 +1,6 @@
 SPECIFICATION Spec
 CONSTANTS Kind = "ints"
- NMax = 130
+ NMax = 60
  DMax = 0
  LMax = 0
  ScaleSet = {0}
